@@ -87,7 +87,7 @@ func zzResultCode(reply []byte) (id int64, code int64, ok bool) {
 	return i, c, ok1 && ok2
 }
 
-var zzLCreds = [][]string{{}, {"root:root"}, {"root:root", "admin:toor"}, {"guest:"}}
+var zzLCreds = [][]string{{}, {"root:root"}, {"root:root", "admin:toor"}, {"guest:"}, {"wxyz"}, {"*", "root:root"}}
 var zzGated = []int{AppModifyRequest, AppAddRequest, AppDelRequest, AppModifyDNRequest, AppCompareRequest}
 var zzDnForms = []struct{ pre, suf string }{{"", ""}, {"cn=", ""}, {"cn=", ",dc=example,dc=org"}, {"sn=", ",dc=x"}}
 
